@@ -252,11 +252,27 @@ class Engine(Interp):
             self.cur_span = saved_span
         out = []
         for kind, s, v in results:
+            self.abandoned_mu(s, s.frames.get(fid, {}), kind, body)
             s.frames.pop(fid, None)
             s.fmeta.pop(fid, None)
             s.depth = fid
             out.append((kind, s, v))
         return out
+
+    def abandoned_mu(self, st, frame, kind, body):
+        """a value that was wrapped with MaybeUninit::new(..) but never reached a slot is never destroyed:
+        when the panic is the container's own (rejected insertion) the rejected objects must be destroyed once"""
+        for l, v in frame.items():
+            if isinstance(v, tuple) and v and v[0] == 'mu_init' and isinstance(l, int) and l != 0:
+                origin = [e for e in st.events if e and e[0] == 'panic']
+                own = bool(origin) and origin[-1][1] != 'user'
+                if kind == 'unwind' and not own:
+                    continue      # leaking on a panic raised by user code is tolerated
+                self.oblig('LEAK', False, 'MaybeUninit::new(..) abandoned',
+                           'a value moved into a MaybeUninit temporary in %s never reaches a slot on this path and is '
+                           'never destroyed (%s)' % (short(body.id), 'after the container\'s own panic' if kind == 'unwind'
+                                                     else 'normal return'),
+                           'refuted', props=['C02', 'C03'] if kind == 'unwind' else ['C02'])
 
     def unwind_targets(self, body):
         t = getattr(body, '_unwind_targets', None)
@@ -351,6 +367,9 @@ class Engine(Interp):
                 out.extend(self.store(s, ptr, v))
             return out
         if k == 'dead':
+            v = st.frames[fid].get(stmt['local'])
+            if isinstance(v, tuple) and v and v[0] == 'mu_init':
+                self.abandoned_mu(st, {stmt['local']: v}, 'unwind' if st.unwinding else 'ret', body)
             st.frames[fid].pop(stmt['local'], None)
             return [st]
         if k == 'live':
